@@ -350,14 +350,70 @@ Fixpoint br_find_site (file fn : string) (sites : list sk_site) : option sk_site
   | s :: r => if String.eqb (sk_file s) file && String.eqb (sk_func s) fn then Some s else br_find_site file fn r
   end.
 
-Definition site_closes_ok (sites : list sk_site) (id : string * string) : bool :=
+(* every site that builds a wrapper stack (all ten of the table): for every valuation of the guards every
+   close function closes what it wraps; the four TCP-class sites moreover join exactly once *)
+Definition c01_all_sites : list (string * string) :=
+  [ ("server/proxy/proxy.go", "handleUserTCPConnection"); ("server/proxy/http.go", "GetRealConn");
+    ("server/proxy/udp.go", "Run"); ("server/visitor/visitor.go", "NewConn");
+    ("client/proxy/proxy.go", "HandleTCPWorkConnection"); ("client/proxy/udp.go", "InWorkConn");
+    ("client/proxy/sudp.go", "InWorkConn"); ("client/visitor/stcp.go", "handleConn");
+    ("client/visitor/sudp.go", "getNewVisitorConn"); ("client/visitor/xtcp.go", "handleConn") ].
+
+Definition site_shapes_ok (sites : list sk_site) (id : string * string) : bool :=
   match br_find_site (fst id) (snd id) sites with
   | Some s =>
-      join_ok s &&
       forallb (fun fe => forallb (fun fc => forallb (fun fl =>
         match site_close_shapes fe fc fl (sk_layers s) with Some W => all_inner W | None => false end)
         [true; false]) [true; false]) [true; false]
   | None => false
   end.
 
-Definition closes_ok (sites : list sk_site) : bool := forallb (site_closes_ok sites) c01_join_sites.
+Definition site_closes_ok (sites : list sk_site) (id : string * string) : bool :=
+  match br_find_site (fst id) (snd id) sites with
+  | Some s => join_ok s && site_shapes_ok sites id
+  | None => false
+  end.
+
+Definition closes_ok (sites : list sk_site) : bool :=
+  forallb (site_closes_ok sites) c01_join_sites && forallb (site_shapes_ok sites) c01_all_sites.
+
+(* ---------- 5. close propagation end to end: two Joins and the transport between them ---------- *)
+
+(* frps joins (A = user connection, B = stack over its end of the work connection); frpc joins
+   (A = backend connection, B = stack over its end of the work connection).  The transport carries a
+   close of one end of the work connection to the other end ONLY IF it has close signalling: TCP FIN,
+   a yamux FIN frame (tcpMux), a quic stream close, a websocket close.  A raw kcp session has none:
+   [link_signals] is false exactly for protocol = kcp with tcpMux = false (finding F-C01b, observed by
+   the tunnel driver on every run).  The transports themselves are not verified. *)
+Definition link_signals (proto_is_kcp tcp_mux : bool) : bool := negb (proto_is_kcp && negb tcp_mux).
+
+Record e2e := { e_srv : jstate; e_cli : jstate }.
+
+Inductive e2ev := EUserClose | EBackendClose | ESrvX | ESrvY | ECliX | ECliY | ELink.
+
+Definition e2e_step (sig : bool) (Ws Wc : list sk_close) (st : e2e) (e : e2ev) : e2e :=
+  match e with
+  | EUserClose => {| e_srv := j_step Ws (e_srv st) EvPeerA; e_cli := e_cli st |}
+  | EBackendClose => {| e_srv := e_srv st; e_cli := j_step Wc (e_cli st) EvPeerA |}
+  | ESrvX => {| e_srv := j_step Ws (e_srv st) EvX; e_cli := e_cli st |}
+  | ESrvY => {| e_srv := j_step Ws (e_srv st) EvY; e_cli := e_cli st |}
+  | ECliX => {| e_srv := e_srv st; e_cli := j_step Wc (e_cli st) EvX |}
+  | ECliY => {| e_srv := e_srv st; e_cli := j_step Wc (e_cli st) EvY |}
+  | ELink =>
+      if sig then
+        {| e_srv := if 0 <? j_baseB (e_cli st) then j_step Ws (e_srv st) EvPeerB else e_srv st;
+           e_cli := if 0 <? j_baseB (e_srv st) then j_step Wc (e_cli st) EvPeerB else e_cli st |}
+      else st
+  end.
+
+Definition e2e_run (sig : bool) (Ws Wc : list sk_close) (sched : list e2ev) (st : e2e) : e2e :=
+  fold_left (e2e_step sig Ws Wc) sched st.
+
+Definition e2e_init (Ws Wc : list sk_close) : e2e := {| e_srv := j_init Ws; e_cli := j_init Wc |}.
+
+Definition srv_drain : list e2ev := [ESrvX; ESrvX; ESrvX; ESrvY; ESrvY; ESrvY; ESrvX; ESrvX; ESrvX].
+Definition cli_drain : list e2ev := [ECliX; ECliX; ECliX; ECliY; ECliY; ECliY; ECliX; ECliX; ECliX].
+Definition e2e_drain : list e2ev := srv_drain ++ [ELink] ++ cli_drain ++ [ELink] ++ srv_drain.
+
+Definition not_backend_close (e : e2ev) : bool := match e with EBackendClose => false | _ => true end.
+Definition not_user_close (e : e2ev) : bool := match e with EUserClose => false | _ => true end.
